@@ -27,7 +27,7 @@ func (farmDrv) Accounts() map[string]string {
 	return map[string]string{"u1": "100000000stake,100000000btc,1000000rwa,1000000rwb"}
 }
 func (farmDrv) BaseGenesis(c *chain.Chain, gs simapp.GenesisState) {}
-func (farmDrv) Base() chain.M                                       { return chain.M{"fee": "pos", "tax": "dflt", "maxcat": "dflt"} }
+func (farmDrv) Base() chain.M                                      { return chain.M{"fee": "pos", "tax": "dflt", "maxcat": "dflt"} }
 
 // Setup: the staking token lpt-1 comes from a coinswap pool (default coinswap parameters).
 func (farmDrv) Setup(e *env) {
